@@ -343,13 +343,19 @@ PROPS["C19"] = dict(
           "(thorough 40) messages per direction AT THE SAME TIME (sizes 0 B..1 MiB incl. 254..257 and 510..513 and sizes above "
           "the kernel socket buffer; every third message pipelined with enqueue), writer and reader paced independently; "
           "abandoned sends: peer not reading, a 600 KB send dropped by a timer after a partial write, more sends, then the "
-          "peer drains - observed once as raw bytes and once through a zlink connection; connection ids collected from 8 "
-          "threads x both transports; a case = one such scenario (seeded); distinct = hash of its description"),
+          "peer drains - observed once as raw bytes and once through a zlink connection; strict call / answer alternation "
+          "(the sender waits for the answer before sending anything else) for frames of exactly 256*k-1, 256*k, 256*k+1 bytes "
+          "and random sizes; abandoned receives: a plain writer thread dribbles 6..20 messages (0 B..70 KB) into the socket in "
+          "pieces of 1 B..40 KB while every receive_call is wrapped in a 0..3 ms timer and started again when it fires; "
+          "connection ids collected from 8 threads x both transports; a case = one such scenario (seeded); distinct = hash "
+          "of its description"),
     oracle=("transfer: the receiver regenerates every message body from (direction, id) - received sequence == sent sequence, "
             "byte for byte, then end-of-stream after the peer closes; ids pairwise distinct; abandoned sends: every frame at "
             "the peer is byte-identical to one submitted message, each at most once, in submission order, and every send that "
-            "returned Ok is present. Time only drives the workload; verdicts come from the recorded history; watchdog firings "
-            "are inconclusive"),
+            "returned Ok is present; alternation: every frame is delivered intact (a stuck receive is a violation only if the "
+            "send returned Ok and the receiver's socket has no unread bytes left - FIONREAD on a duplicate descriptor - i.e. the "
+            "frame was taken off the socket and not delivered); abandoned receives: the messages arrive complete, intact and in "
+            "order. Time only drives the workload; verdicts come from the recorded history; watchdog firings are inconclusive"),
     assumptions=["kernel socket buffer < 600 KB so that the big send blocks while the peer does not read"],
     floor_quick=100, floor_thorough=1000,
     steps=[
